@@ -85,6 +85,7 @@ class State:
         self.version = 0
         self.hav = []  # (key, version) havocked prefixes
         self.events = []  # (kind, bb, data)
+        self.infeasible = False  # the path takes a branch that contradicts a value it built itself
 
     def copy(self):
         s = State()
@@ -340,6 +341,22 @@ class PathExec:
                     elif vals:
                         taken = ("in", tuple(vals))
                 st.events.append(("branch", bb, (d, taken)))
+                # `x = if c { Some(v) } else { None }; if let Some(v) = x`: a path through the None assignment cannot
+                # take the Some edge
+                if isinstance(d, tuple) and d[0] == "discr" and isinstance(d[1], tuple) and d[1][0] == "agg" and taken is not None:
+                    adt = self.facts.adts.get(d[1][1])
+                    if adt and adt.get("kind") == "enum":
+                        dv = [v.get("discr") for v in adt["variants"] if v["name"] == d[1][2]]
+                        if len(dv) == 1 and dv[0] is not None:
+                            if taken[0] == "eq" and taken[1] != dv[0]:
+                                st.infeasible = True
+                            elif taken[0] == "in" and dv[0] not in taken[1]:
+                                st.infeasible = True
+                            elif taken[0] == "notin" and dv[0] in taken[1]:
+                                st.infeasible = True
+                elif isinstance(d, Aff) and d.is_const() and taken is not None:
+                    if (taken[0] == "eq" and taken[1] != d.c) or (taken[0] == "in" and d.c not in taken[1]) or (taken[0] == "notin" and d.c in taken[1]):
+                        st.infeasible = True
             elif k == "assert":
                 st.events.append(("assert", bb, (self.operand(st, t["cond"]), t["expected"], t["msg"])))
             elif k == "return":
